@@ -19,6 +19,31 @@ def gen(n, seed):
     return out
 
 
+def focus(n, seed):
+    """Shapes for the narrow windows around accept / Store / Shutdown's sweep: few actors, Shutdown always, so that single-stall
+    exploration over ALL their schedule points is affordable."""
+    rnd = random.Random(seed * 7919 + 5)
+    out = []
+    for i in range(n):
+        clients = [[['send', 3]] + ([['close']] if rnd.random() < 0.4 else [])]
+        if rnd.random() < 0.4:
+            clients.append([['send', 2], ['close']] if rnd.random() < 0.5 else [['close']])
+        out.append({'id': 'srvf-%d-%d' % (seed, i), 'seed': seed * 20011 + i, 'strategy': 'random', 'plan': [], 'clients': clients,
+                    'onconnect': rnd.random() < 0.2, 'handler': rnd.choice(['quick', 'yield', 'yield']), 'shutdown': True, 'deadline': 120,
+                    'pollers': 2, 'pusher': False, 'focus': True})
+    return out
+
+
+def witnesses():
+    """schedules that showed a defect before its repair (recorded from the code before the repair): replayed in every run.
+    On the repaired tree they must pass; a plan that no longer applies drifts into a random schedule, which is harmless."""
+    import glob
+    out = []
+    for f in sorted(glob.glob(os.path.join(vlib.VERIF, "witness", "C13", "*.json"))):
+        out.append(json.load(open(f))['scenario'])
+    return out
+
+
 def main(pid, tier, replay_path=None):
     t0 = time.time()
     seed = vlib.seed()
@@ -27,13 +52,15 @@ def main(pid, tier, replay_path=None):
     try:
         with vlib.Scratch('srv') as sc:
             binary = vlib.build_harness(sc, '.', instrumented_pool=True)
-            scs = [json.load(open(replay_path))['scenario']] if replay_path else gen(500 if tier == 'quick' else 12000, seed)
+            scs = [json.load(open(replay_path))['scenario']] if replay_path else gen(500 if tier == 'quick' else 12000, seed) + focus(24 if tier == 'quick' else 300, seed) + witnesses()
             res, crashed = conn.run_scenarios(sc, binary, scs, 'v', procs=14, test='TestVerifServerScenarios')
             if not replay_path:
                 # single-stall exploration of a sample of the scenarios: one actor held back at one schedule point
                 import random
-                base = scs[:40 if tier == 'quick' else 600]
+                base = scs[:30 if tier == 'quick' else 600]
                 extra = conn.stall_variants(base, res, per_scenario=40 if tier == 'quick' else 80, rnd=random.Random(seed), skip_actors=())
+                # every schedule point of the focus shapes
+                extra += conn.stall_variants([s for s in scs if s.get('focus')], res, per_scenario=400, rnd=random.Random(seed + 1), skip_actors=())
                 res2, crashed2 = conn.run_scenarios(sc, binary, extra, 'w', procs=14, test='TestVerifServerScenarios')
                 scs = scs + extra
                 res.update(res2)
